@@ -8,4 +8,7 @@ def run(chk):
     import livetests
     if thorough or False:
         livetests.run(chk)   # the repository's own scenario tests, traced and validated against the same contract
+    if thorough:
+        jit = [[b[0] + " jitter_us=50"] + b[1:] for b in N.random_behaviours(chk.rng, 1500, "c05")]
+        N.run_driver(chk, jit, "random-moving-clock")   # clock advances 50 us per read inside the node; contract tolerance 20 ms
     chk.assumptions += N.ASSUME
